@@ -25,6 +25,10 @@ def _init_worker() -> None:
     import faulthandler, signal  # pylint: disable=import-outside-toplevel
 
     faulthandler.register(signal.SIGUSR1, all_threads=True)
+    import resource  # pylint: disable=import-outside-toplevel
+
+    lim = int(os.environ.get("VT_MEM_GB", "6")) * 1024**3
+    resource.setrlimit(resource.RLIMIT_AS, (lim, lim))
 
 
 def _run(job: dict) -> dict:
